@@ -18,7 +18,7 @@ INFO = {
             "Held on the generated call histories x fault scripts; the relay knows which requests it forwarded, so executions == forwarded is an equality. Timing-shaped clauses are re-confirmed before being reported."),
     "C04": ("§2 C04", "audit-hook sandbox monitor + reachable-type walk + bait classes over hostile payload trees on all decode paths",
             "Held on the generated payload trees; the audit hook sees import/exec/open/socket/subprocess events of the interpreter. Trusted: CPython's audit events cover the side effects of interest."),
-    "C05": ("§2 C05", "hostile raw clients (structure-aware mutations) against live daemons with concurrent witness clients; liveness and accounting probes",
+    "C05": ("§2 C05", "hostile raw clients (structure-aware mutations, stalled / TLS / plaintext-on-TLS / UDP-datagram clients, oneway piles) against live daemons with concurrent witness clients; liveness and accounting probes",
             "Held on the hostile streams sent; liveness is read from the threads themselves, accounting from pool/selector state. Bounded-progress restatement of 'still accepts'."),
     "C06": ("§2 C06", "three-way differential: repo encoder/decoder vs independent reference codec over generated and mutated messages; byte-counting fake socket",
             "Held on the generated field tuples and hostile strings; reference codec written from the docstring is the second opinion."),
@@ -34,17 +34,17 @@ INFO = {
             "Held on the generated call lists."),
     "C12": ("§2 C12", "unique tokens in annotations/correlation ids; context snapshots inside methods; annotation record on every reply",
             "Held on the generated multi-client histories under both server types with sleep injection."),
-    "C13": ("§2 C13", "per-connection hook/resource/socket accounting over every way and byte offset a connection can end",
+    "C13": ("§2 C13", "per-connection hook/resource/socket accounting over every way and byte offset a connection can end (plain and TLS daemons, small and 200 kB requests, lingering clients)",
             "Held on the enumerated endings; 'at quiescence' is awaited with a watchdog (expiry = inconclusive)."),
-    "C14": ("§2 C14", "lock-step differential of model / memory / sqlite name servers + statement-level failpoint and crash-point enumeration",
+    "C14": ("§2 C14", "lock-step differential of model / memory / sqlite name servers (arguments and results spoiled after each call) + statement-level failpoint and crash-point enumeration",
             "Held on the generated histories; every sqlite statement of every mutating operation is failed once (fault_enumeration)."),
-    "C15": ("§2 C15", "controlled line-level thread scheduler + linearizability checker against the map model",
+    "C15": ("§2 C15", "controlled line-level thread scheduler + linearizability checker against the map model; free-running stresses with a single-writer prefix-state oracle for listings and count/half-done oracles for bulk removals",
             "Held on the explored schedules (systematic to a preemption bound, then PCT/random)."),
     "C16": ("§2 C16", "registry model stepped with generated register/unregister/call/return histories against a live daemon",
             "Held on the generated histories."),
     "C17": ("§2 C17", "scripted fake sockets; trace-based oracle; exhaustive small-scope enumeration of per-call socket behaviours + random large cases",
             "Exhaustive within the stated small scope (n<=6, scripts<=L); beyond it sampled. The fake socket obeys OS realism rules."),
-    "C18": ("§2 C18", "controlled line-level thread scheduler on the real Pool/Worker + socket-level stress with sleep injection",
+    "C18": ("§2 C18", "controlled line-level thread scheduler on the real Pool/Worker (incl. thread-start faults and jobs that end their thread) + socket-level stress with sleep injection",
             "Held on the explored schedules and socket runs."),
     "C19": ("§2 C19", "grammar-based string generation; differential on URI()/str()/hash/serializers/proxy state/name server",
             "Held on the generated strings; acceptance is whatever URI() accepts."),
@@ -89,7 +89,7 @@ def main():
             {"name": "core", "path": "vlib/core.py", "serves_properties": sorted(CHECK_MODULES), "kind_free_text": "recorder, subprocess shard runner, evidence/replay/known-findings plumbing"},
             {"name": "E1 generators", "path": "vlib/gen.py", "serves_properties": ["C01", "C04", "C07", "C19"], "kind_free_text": "hypothesis strategies + type-exact deep comparison"},
             {"name": "E2 reference wire codec / raw client", "path": "vlib/wire.py", "serves_properties": ["C02", "C05", "C06", "C08", "C12", "C13", "C18"], "kind_free_text": "independent codec written from the protocol docstring"},
-            {"name": "E3 daemon fixture", "path": "vlib/fixture.py", "serves_properties": ["C01", "C02", "C03", "C05", "C07", "C08", "C09", "C10", "C11", "C12", "C13", "C16"], "kind_free_text": "live daemon in a thread, event log with logical clock, thread-fault hooks, pool/selector probes"},
+            {"name": "E3 daemon fixture", "path": "vlib/fixture.py", "serves_properties": ["C01", "C02", "C03", "C05", "C07", "C08", "C09", "C10", "C11", "C12", "C13", "C16"], "kind_free_text": "live daemon in a thread (TCP / unix / TLS), event log with logical clock, every third shard with Pyro5 logging on, thread-fault hooks, pool/selector probes"},
             {"name": "E8 fake sockets", "path": "vlib/fakesock.py", "serves_properties": ["C06", "C17"], "kind_free_text": "scripted sockets"},
         ],
         "checks": checks,
